@@ -170,11 +170,13 @@ fn main() {
         .ok()
         .and_then(|s| s.parse::<usize>().ok())
         .unwrap_or(16);
-    rayon::ThreadPoolBuilder::new()
-        .num_threads(threads)
-        .stack_size(16 << 20)
-        .build_global()
-        .ok();
+    if !sequential() {
+        rayon::ThreadPoolBuilder::new()
+            .num_threads(threads)
+            .stack_size(16 << 20)
+            .build_global()
+            .ok();
+    }
     let mut rep = Report {
         property: property.clone(),
         tier: if ctx.quick() { "quick" } else { "thorough" }.to_string(),
